@@ -983,9 +983,9 @@ def views_proof(ctx):
     import re
     m = re.search(r"All (\d+) obligations? proved", out)
     status = "proved" if m else "not established"
-    ctx.extra["unbounded_proof"] = {"module": "spec/BufferProof.tla", "theorem": "ViewsAgreeThm", "prover": "tlapm (SMT back end)",
+    ctx.extra["unbounded_proof"] = {"module": "spec/BufferProof.tla", "theorems": ["ViewsAgreeThm", "LineUnique", "ViewsMatchTextThm"], "prover": "tlapm (SMT back end)",
                                     "status": status, "obligations": int(m.group(1)) if m else 0, "wall_s": round(time.time() - t0, 1)}
-    log("[proof] BufferProof.ViewsAgreeThm: %s (%s obligations, %.1fs)" % (status, m.group(1) if m else "-", time.time() - t0))
+    log("[proof] BufferProof (ViewsAgreeThm, LineUnique, ViewsMatchTextThm): %s (%s obligations, %.1fs)" % (status, m.group(1) if m else "-", time.time() - t0))
     if not m:
         log("[proof] tlapm output tail: " + out[-400:].replace("\n", " | "))
     shutil.rmtree(d, ignore_errors=True)
